@@ -577,6 +577,9 @@ def run_paths(ctx, drv, mdl):
 
 
 def run(ctx):
+    # C07_DROP=<id,...>: judge as if these findings were not listed (to see whether a finding is still reachable)
+    for k in os.environ.get("C07_DROP", "").split(","):
+        ctx.known.pop(k, None)
     ctx.proofs()
     ctx.assumptions += [
         "A-fs: the importer's view of the file system is a finite map from library key AS SPELLED (base directory of the "
